@@ -170,6 +170,12 @@ def roundtrip_impl(impl, case, mode, hist=None, hstats=None):
     d = impl.decode(frame)
     # independent expectation: BodyLength / CheckSum recomputed by the reference framer
     st = seq_text_of(case, mode)
+    if st is None:
+        # a message that must carry its own MsgSeqNum (raw mode / SequenceReset / PossDupFlag=Y) but has none:
+        # the encoder has to refuse it - a frame came out under a number the message never had
+        return {"signature": "C01-own-number-missing-not-refused:" + mode,
+                "what": "the encoder produced a frame for a message that must carry its own MsgSeqNum and does not",
+                "input": inp, "expected": "refused (EncodingError / TagNotFoundError)", "observed": C.cp(frame)}, "checked"
     body_fields = [f"35={mtype}", f"49={sender}", f"56={target}", f"34={st}", f"52={now}"] + K.flatten(
         [n for n in tree if n[1] not in K.SKIP_TAGS])
     ref = K.ref_frame(body_fields)
